@@ -32,7 +32,8 @@ OPS = [((3, b"k", None), b"VALUE k 0 1\r\nv\r\nEND\r\n"), ((0, 0, b"k", b"v", 0,
        ((9, b"k", False), b"DELETED\r\n"), ((1, [(b"a", b"1"), (b"b", b"2")], 0, False, None), b"STORED\r\nSTORED\r\n"),
        ((15,), b"VERSION 1\r\n"), ((7, False, [b"a", b"b"]), b"VALUE a 0 1\r\nx\r\nEND\r\n"), ((11, b"k", 1, False), b"5\r\n"),
        ((0, 0, b"k", b"v", 0, True, None), None), ((2, b"k", b"v", b"7", 0, False, None), b"EXISTS\r\n"),
-       ((13, b"k", 0, False), b"TOUCHED\r\n"), ((14, 0, False), b"OK\r\n"), ((16, b"x", b"\r\n"), b"y\r\n"), ((17,), None), ((23, 64), b"OK\r\n"), ((24, False), b"ERROR\r\n")]
+       ((13, b"k", 0, False), b"TOUCHED\r\n"), ((14, 0, False), b"OK\r\n"), ((16, b"x", b"\r\n"), b"y\r\n"), ((17,), None), ((23, 64), b"OK\r\n"), ((24, False), b"ERROR\r\n"),
+       ((10, False, [b"a", b"b", b"c"], False), b"DELETED\r\nDELETED\r\nNOT_FOUND\r\n")]
 FOLLOW = [((9, b"j", False), b"NOT_FOUND\r\n"), ((3, b"j", None), b"END\r\n"), ((0, 1, b"j", b"w", 0, False, None), b"NOT_STORED\r\n")]
 CONFIGS = [dict(tcp=False), dict(tcp=True, naddr=2), dict(tcp=True, naddr=1, tls=True, ignore_exc=True)]
 
@@ -50,6 +51,12 @@ def cases(ctx):
                         out.append((c, ops, [0] * pos + [(TAGS[kind],)], [], rbo))
                     for rpos in range(0, 3):
                         out.append((c, ops, [], [2] * rpos + [(TAGS[kind],)], rbo))
+                    # a reply of several lines (set_many, delete_many, a value block): the interruption after the first line(s) have been read
+                    lines = (rep or b"").split(b"\r\n")[:-1]
+                    if len(lines) >= 2:
+                        n1 = len(lines[0]) + 2
+                        for first in (n1, n1 + 3, n1 + len(lines[1]) + 2):
+                            out.append((c, ops, [], [first, (TAGS[kind],)], rbo))
     return out
 
 
@@ -143,7 +150,7 @@ def correspondence(ctx):
     pooled = pooled + idle
     return {"evaluations": len(cl) + len(pooled), "distinct_nontrivial": len(cl) + len(pooled),
             "rule": "extracted Client and PooledClient models vs the real classes (results, full socket traces, pool used/free "
-                    "counts): 15 operations (incl. quit, cache_memlimit, shutdown) x 3 follow-up operations (twice) x 3 configurations x KeyboardInterrupt/SystemExit/"
+                    "counts): 16 operations (incl. delete_many, quit, cache_memlimit, shutdown) x 3 follow-up operations (twice) x 3 configurations x KeyboardInterrupt/SystemExit/"
                     "greenlet timeout at EVERY non-recv socket call position 0..8 and at each of the first 3 recv calls, and raised inside "
                     "sendall AFTER the bytes were taken (the reply will arrive), and inside the close() of the cleanup after a read timeout; pooled "
                     "with max_pool_size 1 and 2, and with pool_idle_timeout=5 after an idle period (the interruption inside the close of the expired connection); every case is non-trivial (one interruption)",
